@@ -27,6 +27,7 @@ func (s *sortableMutex) Lock() {
 	start := time.Now()
 	s.Mutex.Lock()
 	s.acquireDuration = time.Since(start)
+	vhook("smu.acquired")
 }
 
 func (s *sortableMutex) Seq() uint64 { return s.seq }
